@@ -25,6 +25,9 @@
 (*   UseName      a name or attribute chain evaluated while a body runs    *)
 (*                (bases, decorators, defaults, class bodies)              *)
 (*   UseFails     ... that does not resolve: NameError / AttributeError    *)
+(*   ReflUse      a name of a module looked up by a computed string while  *)
+(*                a body runs (getattr(M, e), vars(M)[e], globals()[e])    *)
+(*   ReflFails    ... that is not in the namespace: AttributeError/KeyError*)
 (*   EndModule    body finished: the module is initialised and becomes an  *)
 (*                attribute of its package (only now)                      *)
 (*   EndUser      the interpreter has executed `import lena.X` (, lena.Y)  *)
@@ -46,6 +49,12 @@
 (*                   unbound on that path (UnboundLocalError is a          *)
 (*                   NameError): names deleted by `except .. as n` / del,  *)
 (*                   names whose only assignment is what raised            *)
+(*   ReflectiveResolve  a name of a module referred to by a computed       *)
+(*                   string (getattr(M, e), M.__dict__[e], vars(M)[e],     *)
+(*                   globals()[e]) is bound in the namespace of M for      *)
+(*                   every string e can evaluate to, unless the exception  *)
+(*                   that lookup raises is handled around it or the        *)
+(*                   presence of the name is tested                        *)
 (* Declarative part: Closure (reachability in the static import graph) and *)
 (* StaticNames; LoadedIsClosure and NamesAreStatic tie the machine to them.*)
 (***************************************************************************)
@@ -59,7 +68,10 @@ CONSTANTS
     All,            \* module -> set of advertised names, for modules that assign __all__
     DynDefs,        \* [Modules -> names functions may create with `global`]
     DynAttr,        \* modules that define __getattr__ (PEP 562): every attribute access on them may succeed
+    DynStore,       \* modules into whose namespace some function stores names it computes (globals()[e] = v)
     Funcs, FMod, FImports, FLoads, FChains,
+    FRefl,          \* [Funcs -> references by computed name, see ReflectiveResolve below]
+    BRefl,          \* the same for module bodies: [id -> reference record]; a body statement "refl" names its id
     FlowFuncs, FNodes, FSucc, FSeeds,   \* binding events of local names: graph per function (see below)
     Builtins, Implicit, PkgImplicit
 (* The check does not assign these constants in a .cfg: it writes a module that consists of the  *)
@@ -251,6 +263,56 @@ UseFails == /\ AtStmt /\ Stmt.op = "use" /\ ~ChainRes(CurMod, Stmt).ok
             /\ LET r == ChainRes(CurMod, Stmt) IN
                IF r.on = "" THEN Failure("NameError", r.attr) ELSE FailureOn("AttributeError", r.on, r.attr)
 
+(***************************************************************************)
+(* Reflective references (ReflectiveResolve).  FRefl[f] is the set of      *)
+(* lookups by a computed name in f:                                        *)
+(*   root, rv, links   the chain that evaluates to the module M (as in     *)
+(*                     FChains; rv = module the root is known to be)       *)
+(*   how               "getattr": getattr(M, e)       -> AttributeError    *)
+(*                     "item":    M.__dict__[e], vars(M)[e], globals()[e]  *)
+(*                                                    -> KeyError          *)
+(*   names             the strings e can evaluate to: the literal parts of *)
+(*                     e with every hole (a part that depends on an        *)
+(*                     argument or on data) replaced by each value of its  *)
+(*                     domain - the literal collection the code bounds it  *)
+(*                     with, else the bounded universe of argument values  *)
+(*                     of the extractor (open = TRUE)                      *)
+(*   catches           exception classes handled around the lookup         *)
+(*   tested            hasattr(M, e) / e in vars(M) occurs in f            *)
+(* The lookup is judged in the state the call of f reaches (what has been  *)
+(* imported decides whether a package has its submodule as an attribute).  *)
+(* Modules with __getattr__ and modules into which names are stored        *)
+(* reflectively are not judged.                                            *)
+(***************************************************************************)
+ExcOf(how) == IF how = "getattr" THEN "AttributeError" ELSE "KeyError"
+ReflGuarded(d) == d.tested \/ ExcOf(d.how) \in d.catches
+\* the value of  root.l1.l2...  (OBJ: not a module of the tree, or the chain itself does not resolve, which
+\* is ChainsResolve's matter)
+RECURSIVE WalkTo(_, _, _)
+WalkTo(val, links, i) ==
+    IF i > Len(links) THEN val
+    ELSE IF val \notin Modules \/ val \in DynAttr THEN OBJ
+    ELSE IF links[i] \in DOMAIN g[val] THEN WalkTo(g[val][links[i]], links, i + 1)
+    ELSE OBJ
+ReflTarget(m, d) == IF d.rv = "" /\ ~NameBound(m, d.root) THEN OBJ ELSE WalkTo(RootValue(m, d), d.links, 1)
+Judged(t) == t \in Modules /\ t \notin DynAttr /\ t \notin DynStore /\ ms[t] # "absent"
+InNamespace(t, n) == n \in DOMAIN g[t] \/ n \in DynDefs[t]
+ReflMissing(m, d) == LET t == ReflTarget(m, d)
+                     IN  IF Judged(t) THEN {n \in d.names : ~InNamespace(t, n)} ELSE {}
+
+(* A lookup by computed name in a module body (statement "refl", record BRefl[Stmt.name]; only lookups whose    *)
+(* candidate strings the code bounds are recorded there).  All candidates present: it succeeds; none: it      *)
+(* raises; some: which candidates the run evaluates is not known to the model, so it does either.              *)
+ReflStmt == BRefl[Stmt.name]
+ReflUse == /\ AtStmt /\ Stmt.op = "refl"
+           /\ (ReflStmt.tested \/ ReflMissing(CurMod, ReflStmt) # ReflStmt.names \/ ReflStmt.names = {})
+           /\ stack' = Advanced
+           /\ caught' = (caught \/ (~ReflStmt.tested /\ ReflMissing(CurMod, ReflStmt) # {}))
+           /\ UNCHANGED <<entries, ms, g, order, phase, cur, fail>>
+ReflFails == /\ AtStmt /\ Stmt.op = "refl" /\ ~ReflStmt.tested /\ ReflMissing(CurMod, ReflStmt) # {}
+             /\ FailureOn(ExcOf(ReflStmt.how), ReflTarget(CurMod, ReflStmt),
+                          CHOOSE n \in ReflMissing(CurMod, ReflStmt) : TRUE)
+
 AtEnd(kind) == Running /\ Top.k = kind /\ Top.pc > Len(BodyOf(Top))
 
 EndModule == /\ AtEnd("mod")
@@ -290,7 +352,7 @@ InitWith(es) == /\ entries = es
 Init == \E es \in EntryLists : InitWith(es)
 
 Step == \/ LoadModule \/ BindImport \/ BindFrom \/ StarImport \/ ImportFails
-        \/ DefName \/ DelName \/ UseName \/ UseFails \/ EndModule \/ EndUser \/ EndCall
+        \/ DefName \/ DelName \/ UseName \/ UseFails \/ ReflUse \/ ReflFails \/ EndModule \/ EndUser \/ EndCall
         \/ Unwind \/ Jump \/ Branch \/ CallF \/ EndCallF
 Next == Step \/ \E f \in Funcs : Call(f)
 Spec == Init /\ [][Next]_vars
@@ -365,6 +427,14 @@ DeadBySeed(f) ==
 DeadLoads(f) == IF f \in FlowFuncs THEN DeadByKill(f) \cup DeadBySeed(f) ELSE {}
 LocalsResolve == phase = "called" => DeadLoads(cur) = {}
 
+BadRefl(f) == {d \in FRefl[f] : ~ReflGuarded(d) /\ ReflMissing(FMod[f], d) # {}}
+ReflectiveResolve == phase = "called" => BadRefl(cur) = {}
+\* what the model predicts for every lookup by computed name of f (replayed on the real module objects)
+ReflView(f) == {[line |-> d.line, how |-> d.how, pat |-> d.pat, open |-> d.open, guarded |-> ReflGuarded(d),
+                 on |-> IF Judged(ReflTarget(FMod[f], d)) THEN ReflTarget(FMod[f], d) ELSE "-",
+                 present |-> d.names \ ReflMissing(FMod[f], d),
+                 missing |-> ReflMissing(FMod[f], d)] : d \in FRefl[f]}
+
 GlobalsResolve == phase = "called" => BadLoads(cur) = {}
 ChainsResolve == phase = "called" => BadChains(cur) = {}
 ImportsSucceed == phase # "failed"         \* an exception that a handler of a module body catches is no failure
@@ -418,9 +488,13 @@ Emitted ==
     /\ Ready => PrintT(ToJson([t |-> "ready", entries |-> entries, order |-> order,
                                   mods |-> [m \in Loaded |-> g[m]],
                                   missing |-> {[m |-> p[1], name |-> p[2]] : p \in MissingAll}]))
-    /\ (phase = "called" /\ (BadLoads(cur) # {} \/ BadChains(cur) # {} \/ DeadLoads(cur) # {})) =>
+    /\ (phase = "called" /\ FRefl[cur] # {}) =>
+           PrintT(ToJson([t |-> "refl", entries |-> entries, f |-> cur, m |-> FMod[cur], refs |-> ReflView(cur)]))
+    /\ (phase = "called" /\ (BadLoads(cur) # {} \/ BadChains(cur) # {} \/ DeadLoads(cur) # {}
+                             \/ BadRefl(cur) # {})) =>
            PrintT(ToJson([t |-> "bad", entries |-> entries, f |-> cur, m |-> FMod[cur],
                           loads |-> BadLoads(cur), locals |-> DeadLoads(cur),
+                          refl |-> {v \in ReflView(cur) : ~v.guarded /\ v.missing # {}},
                           chains |-> {[root |-> c.root, links |-> c.links, line |-> c.line,
                                        on |-> ChainRes(FMod[cur], c).on, attr |-> ChainRes(FMod[cur], c).attr]
                                       : c \in BadChains(cur)}]))
